@@ -160,6 +160,22 @@ static void window_edge_cases(u8* data)
     }
 }
 
+/* input sizes around LZ4_64Klimit (64 KB + 11), where the fast compressor switches from the 16-bit table (no distance test: every distance is assumed
+ * <= 65535) to the 32-bit one: the tail of the input repeats its head at distance EXACTLY 65536, incompressible in between so that position 65536 is examined */
+static void size64k_limit_cases(u8* data)
+{
+    size_t n, i; int e; static const int ents[] = {E_DEFAULT, E_FAST, E_FAST, E_FAST_EXTSTATE, E_FAST_FASTRESET}; static const int params[] = {1, 2, 257, 1, 1};
+    for (n = 65536 + 4; n <= 65536 + 26; n++) {
+        for (i = 0; i < 65536; i++) data[i] = (u8)rnd();
+        memcpy(data + 65536, data, n - 65536);
+        for (e = 0; e < 5; e++) do_case(data, n, ents[e], params[e], LZ4_compressBound((int)n), D_FARMATCH, 1);
+        /* the same distance reached through ONE long match: 8 bytes, then zeroes (a single match swallows them, their positions are not inserted, the table
+         * slot of the head still says "position 0"), then the head again at the last position where a match may start (n - 12) */
+        if (n >= 65536 + 12) { u8 head[8]; for (i = 0; i < 8; i++) head[i] = (u8)(1 + rndn(255)); memset(data, 0, n); memcpy(data, head, 8); memcpy(data + n - 12, head, 7);
+            for (e = 0; e < 5; e++) do_case(data, n, ents[e], params[e], LZ4_compressBound((int)n), D_FARMATCH, 1); }
+    }
+}
+
 /* single-byte RUNS cut by the window edge: an older run R1 of a byte and, one window later, a longer run R2 of the same byte, placed so that
  * position (start of R2) - 65535 falls strictly inside R1 (only part of R1 is still visible).  This is the geometry in which the HC "pattern analysis"
  * (levels 9+) extends a match backwards over a run it cannot fully see; every level and the fast compressor are run on it. */
@@ -202,7 +218,7 @@ int main(int argc, char** argv)
         static const int ents[] = {E_DEFAULT, E_FAST_FASTRESET, E_HC, E_HC_FAVOR};
         int ncases = thorough ? SH(40000) : 2500;
         if (ONCE) exhaustive_ab(thorough ? 16 : 11, ents, !strcmp(mode, "c06") ? 3 : 4);
-        window_edge_cases(data);
+        window_edge_cases(data); size64k_limit_cases(data);
         run_window_edge_cases(data, thorough ? SH(400) : 40);
         tiny_alphabet_sweep(data, thorough ? SH(40000) : 3000);
         for (i = 0; i < ncases; i++) {
